@@ -32,6 +32,7 @@ from gen import multimod as GM
 from props import c05_multimod as MM
 from props import c05_kwparams as KW
 from gen import kwparams as GK
+from gen import globalvars as GV
 
 MODELS = ['Scopes', 'Refs', 'RefsMulti', 'KwBind']
 LEAN_TARGETS = ['JediModel.Props.C05', 'JediModel.Drivers.C05']
@@ -335,6 +336,10 @@ def programs(ctx):
         n_random = 3000
     for _ in range(n_random):
         out.append((G.gen_program(rng, size=10), 'random'))
+    # one module variable (re)bound through `global` declarations of SEVERAL scopes (gen/globalvars.py)
+    grng = ctx.subrng('globalvars')
+    for plan in GV.plans(ctx.size(36, 600)):
+        out.append((GV.gen_program(grng, plan), 'globals'))
     out += [(p, 'witness') for p in WITNESSES]
     return out
 
